@@ -24,6 +24,12 @@ use std::sync::Arc;
 use std::time::{Duration, Instant};
 
 pub type Out = Arc<Mutex<Vec<String>>>;
+
+/// what the driver is about to call (named in the `hung` record when a call never returns)
+pub static CURRENT_OP: Mutex<String> = Mutex::new(String::new());
+fn mark(s: String) {
+  *CURRENT_OP.lock() = s;
+}
 type C = Cache<u32, Val, FixedState>;
 type AC = AsyncCache<u32, Val, FixedState>;
 
@@ -293,6 +299,8 @@ impl Sim {
 
   /// Completes a step record with the common observations and writes it.
   fn finish(&mut self, mut rec: Value, with_view: bool) {
+    let done = std::mem::take(&mut *CURRENT_OP.lock());
+    mark(format!("metrics / notification marker / peek after: {done}"));
     let cr = self.cache.metrics().current_cost;
     let notes = match self.drain() {
       Some(n) => n,
@@ -376,6 +384,7 @@ impl Sim {
       }
     }
     let a = self.asyn();
+    mark(format!("run_maintenance async={a}"));
     if a {
       block_on(self.ac.run_maintenance());
     } else {
@@ -420,6 +429,7 @@ impl Sim {
     let with_ttl = self.rng.random_bool(if self.cfg.profile == "ttl" { 0.35 } else { 0.15 });
     let ttl = if with_ttl { [5u64, 10, 25, 60, 14, 33][self.rng.random_range(0..6)] } else { 0 };
     let v = Val { wid: w, n: 0 };
+    mark(format!("insert key={k} wid={w} cost={c} ttl={ttl} async={a}"));
     match (a, with_ttl) {
       (false, false) => self.cache.insert(k, v, c),
       (false, true) => self.cache.insert_with_ttl(k, v, c, Duration::from_millis(ttl)),
@@ -435,6 +445,7 @@ impl Sim {
     let a = self.asyn();
     let items: Vec<(u32, u32, u64)> = (0..n).map(|_| (self.key(), self.wid(), self.cost())).collect();
     let arg: Vec<(u32, Val, u64)> = items.iter().map(|(k, w, c)| (*k, Val { wid: *w, n: 0 }, *c)).collect();
+    mark(format!("multi_insert {items:?} async={a}"));
     if a {
       block_on(self.ac.multi_insert(arg));
     } else {
@@ -448,6 +459,7 @@ impl Sim {
 
   fn remove(&mut self) {
     let (k, a) = (self.key(), self.asyn());
+    mark(format!("remove/invalidate key={k} async={a}"));
     if self.rng.random_bool(0.5) {
       let r = if a { block_on(self.ac.remove(&k)) } else { self.cache.remove(&k) };
       let rec = json!({"k":"rem","api":"remove","h":Self::h(a),"key":k,"hit":r.is_some(),"res":pair(&r)});
@@ -463,6 +475,7 @@ impl Sim {
     let n = self.rng.random_range(1..=4);
     let a = self.asyn();
     let keys: Vec<u32> = (0..n).map(|_| self.key()).collect();
+    mark(format!("multi_remove/multi_invalidate {keys:?} async={a}"));
     if self.rng.random_bool(0.6) {
       let r = if a { block_on(self.ac.multi_remove(keys.clone())) } else { self.cache.multi_remove(keys.clone()) };
       let res: Vec<Value> = r.iter().map(|(k, v)| json!([k, v.wid, v.n])).collect();
@@ -480,6 +493,7 @@ impl Sim {
 
   fn clear(&mut self) {
     let a = self.asyn();
+    mark(format!("clear async={a}"));
     if a {
       block_on(self.ac.clear())
     } else {
@@ -492,6 +506,7 @@ impl Sim {
     let (k, a) = (self.key(), self.asyn());
     let api = ["compute", "try_compute", "compute_val", "try_compute_val"][self.rng.random_range(0..4)];
     let mut val = json!([0, 0]);
+    mark(format!("{api} key={k} async={a}"));
     let res = match api {
       "compute" => {
         let r = if a { block_on(self.ac.compute(&k, |v| v.n += 1)) } else { self.cache.compute(&k, |v| v.n += 1) };
@@ -535,6 +550,7 @@ impl Sim {
     let called = AtomicBool::new(false);
     let v = Val { wid: w, n: 0 };
     DEFAULT_WID.store(w, Ordering::SeqCst);
+    mark(format!("entry().{api} key={k} wid={w} cost={c} async={a}"));
     let mk = || {
       called.store(true, Ordering::SeqCst);
       Val { wid: w, n: 0 }
@@ -557,6 +573,7 @@ impl Sim {
   fn read(&mut self) {
     let (k, a) = (self.key(), self.asyn());
     let api = ["get", "fetch", "peek"][self.rng.random_range(0..3)];
+    mark(format!("{api} key={k} async={a}"));
     let res = match (api, a) {
       ("get", false) => self.cache.get(&k, |v| json!([v.wid, v.n])).unwrap_or(json!([0, 0])),
       ("get", true) => block_on(self.ac.get(&k, |v| json!([v.wid, v.n]))).unwrap_or(json!([0, 0])),
@@ -573,6 +590,7 @@ impl Sim {
     let n = self.rng.random_range(1..=5);
     let a = self.asyn();
     let keys: Vec<u32> = (0..n).map(|_| self.key()).collect();
+    mark(format!("multiget {keys:?} async={a}"));
     let r = if a { block_on(self.ac.multiget::<_, u32>(keys.clone())) } else { self.cache.multiget::<_, u32>(keys.clone()) };
     let mut res: Vec<(u32, u32, u32)> = r.iter().map(|(k, v)| (*k, v.wid, v.n)).collect();
     drop(r);
@@ -587,6 +605,7 @@ impl Sim {
 
   fn fetch_with_key(&mut self, k: u32, a: bool) {
     self.sh.loads.lock().clear();
+    mark(format!("fetch_with key={k} async={a}"));
     let r = if a { block_on(self.ac.fetch_with(&k)) } else { self.cache.fetch_with(&k) };
     let res = json!([r.wid, r.n]);
     drop(r);
@@ -631,6 +650,7 @@ impl Sim {
       None
     };
     let mut items: Vec<(u32, u32, u32)> = Vec::new();
+    mark(format!("{api} batch={bs} advance={adv_at:?}"));
     let tick = |items: &Vec<(u32, u32, u32)>| {
       if let Some((at, dt)) = adv_at {
         if items.len() == at {
@@ -718,6 +738,7 @@ impl Sim {
 
   fn snapshot(&mut self) {
     let a = self.asyn();
+    mark(format!("to_snapshot async={a}"));
     let snap = if a { block_on(self.ac.to_snapshot()) } else { self.cache.to_snapshot() };
     let js = serde_json::to_value(&snap).expect("serialize snapshot");
     self.finish(json!({"k":"snap","h":Self::h(a),"entries":Self::snapshot_entries(&js),"cap":js["capacity"].as_u64().map(|c| if c == u64::MAX {0} else {c}),
@@ -726,6 +747,7 @@ impl Sim {
 
   fn restore(&mut self) {
     let a = self.asyn();
+    mark(format!("to_snapshot + build_from_snapshot async={a}"));
     let snap = if a { block_on(self.ac.to_snapshot()) } else { self.cache.to_snapshot() };
     let text = serde_json::to_string(&snap).expect("serialize snapshot");
     let js: Value = serde_json::from_str(&text).unwrap();
